@@ -135,7 +135,11 @@ class Mini:
 
     def assign(self, target: ast.AST, value: Any, env: Dict[str, Any]) -> None:
         if isinstance(target, ast.Name):
-            env[target.id] = value
+            nl = env.get("__nonlocal__")
+            if nl and target.id in nl:
+                nl[target.id][target.id] = value
+            else:
+                env[target.id] = value
         elif isinstance(target, (ast.Tuple, ast.List)):
             vals = list(value)
             if len(vals) != len(target.elts):
@@ -245,6 +249,18 @@ class Mini:
             env[s.name] = self.closure(s, env)
         elif isinstance(s, ast.Global):
             return
+        elif isinstance(s, ast.Nonlocal):
+            # reads and writes of these names go to the environment the function was defined in
+            outer = env.get("__outer__")
+            if outer is None:
+                raise AnalysisError("miniinterp: nonlocal outside a nested function")
+            nl = env.setdefault("__nonlocal__", {})
+            for nm in s.names:
+                o = outer
+                while nm not in o and o.get("__outer__") is not None:
+                    o = o["__outer__"]
+                nl[nm] = o
+                env.pop(nm, None)
         elif isinstance(s, ast.Delete):
             for t in s.targets:
                 if isinstance(t, ast.Subscript):
@@ -335,6 +351,8 @@ class Mini:
             else:
                 bound.update(kwargs)
             sub = dict(env)
+            sub.pop("__nonlocal__", None)
+            sub["__outer__"] = env
             try:
                 sub.update(bound)
                 interp.block(fn.body, sub)
@@ -348,6 +366,9 @@ class Mini:
         if isinstance(e, ast.Constant):
             return e.value
         if isinstance(e, ast.Name):
+            nl = env.get("__nonlocal__")
+            if nl and e.id in nl and e.id in nl[e.id]:
+                return nl[e.id][e.id]
             if e.id in env:
                 v = env[e.id]
                 if isinstance(v, _Unbound):
